@@ -121,6 +121,23 @@ func genSchema(r *hx.Rand) SchemaSpec {
 		}
 		s.Types = append(s.Types, t)
 	}
+	// every interface has at least one implementer (a non-null interface position needs a value)
+	for _, in := range ifs {
+		if len(s.Possible(in)) == 0 {
+			for ti := range s.Types {
+				if s.Types[ti].Kind == "object" {
+					t := &s.Types[ti]
+					t.Ifaces = append(t.Ifaces, in)
+					for _, f := range ifaceFields[in] {
+						if t.Field(f.Name) == nil {
+							t.Fields = append(t.Fields, f)
+						}
+					}
+					break
+				}
+			}
+		}
+	}
 	for _, un := range uns {
 		s.Types = append(s.Types, TypeSpec{Kind: "union", Name: un, Members: pickN(r, objs, r.Range(1, len(objs)))})
 	}
@@ -335,7 +352,7 @@ func (g *opGen) selSet(parent string, depth int, sc *scope) []Sel {
 			hasFrag = true
 		default: // named fragment: reuse a compatible one or define a new one
 			var name string
-			if g.r.Chance(1, 3) {
+			if g.r.Chance(1, 6) {
 				for _, f := range g.frags {
 					if contains(conds, f.Cond) && !used[goFieldName(f.Name)] && g.mergeFragment(sc, f, true) {
 						name = f.Name
